@@ -1,4 +1,5 @@
 import CollectionsC.Model.PQueue
+import CollectionsC.Proofs.MemT
 /-! Helper lemmas for the binary heap: index macros, swaps as permutations, the sift-up loop and
 the recursive sift-down (`heapify`) restore heap order, the root is maximal. -/
 namespace CC
@@ -280,7 +281,7 @@ theorem heapify_spec {cmp : Nat → Nat → Int} (tp : TotalPreorder cmp) (n : N
           · exact (hbig h).elim
           · exact ⟨Or.inl h, by omega⟩
           · exact ⟨Or.inr h, by omega⟩
-        generalize hg : pick cmp b n i = big at *
+        generalize hgen : pick cmp b n i = big at *
         have hpar : ccParent big = i := by
           rcases hchild.1 with h | h
           · rw [h]; exact parent_left i
@@ -356,51 +357,50 @@ theorem heapOrd_congr (cmp : Nat → Nat → Int) (b b' : Buf Nat) (n : Nat) (h 
   rw [h j hj, h (ccParent j) (by have := parent_lt j hj0; omega)] at this
   exact this
 
-/-- the growth law never exceeds `CC_MAX_ELEMENTS` (in C the float product converted to `size_t`
-would otherwise be undefined behaviour) -/
-def GrowOk (grow : Nat → Nat) : Prop := ∀ c, grow c ≤ Gen.CC_MAX_ELEMENTS
+/-- representation invariant including the bound the library keeps on the capacity: the byte size
+`capacity * sizeof(void*)` is representable (constructor guard A9, growth guard A10) -/
+def Inv' (cmp : Nat → Nat → Int) (q : PQueue) : Prop := q.Inv cmp ∧ q.capacity ≤ Gen.CC_MAX_ELEMENTS / ptrSize
 
-theorem newCapacity_gt (grow : Nat → Nat) (q : PQueue) (hg : GrowOk grow)
-    (hc : q.capacity ≤ Gen.CC_MAX_ELEMENTS) (hne : q.capacity ≠ Gen.CC_MAX_ELEMENTS) :
-    q.capacity < newCapacity grow q ∧ newCapacity grow q ≤ Gen.CC_MAX_ELEMENTS := by
+/-- whatever the growth law answers (the float product may be anything), the capacity
+`expand_capacity` asks for is strictly larger than the current one -/
+theorem newCapacity_gt (grow : Nat → Nat) (q : PQueue) (hc : q.capacity ≤ Gen.CC_MAX_ELEMENTS / ptrSize) :
+    q.capacity < newCapacity grow q := by
   unfold newCapacity; dsimp only
-  have := hg q.capacity
+  simp only [Gen.CC_MAX_ELEMENTS, ptrSize] at *
   split
-  · split
-    · simp only [Gen.CC_MAX_ELEMENTS] at *; omega
-    · exact ⟨by omega, Nat.le_refl _⟩
-  · exact ⟨by omega, this⟩
-
-/-- representation invariant including the bound the library keeps on the capacity -/
-def Inv' (cmp : Nat → Nat → Int) (q : PQueue) : Prop := q.Inv cmp ∧ q.capacity ≤ Gen.CC_MAX_ELEMENTS
+  · have : q.capacity < 18446744073709551614 / 2 := by omega
+    simp only [this, if_true]; omega
+  · omega
 
 /-- `expand_capacity`: either OK with a strictly larger buffer holding the same first `size` slots
 (one block allocated, one freed), or an error with the queue unchanged -/
-theorem expand_spec (cmp : Nat → Nat → Int) (grow : Nat → Nat) (q : PQueue) (m : Mem) (hg : GrowOk grow)
-    (h : Inv' cmp q) (hl : 0 < m.live) :
+theorem expand_spec (cmp : Nat → Nat → Int) (grow : Nat → Nat) (q : PQueue) (m : Mem)
+    (h : Inv' cmp q) (hl : 0 < m.liveT q.triple) :
     ((expandCapacity grow q m).1 = .ok ∧ Inv' cmp (expandCapacity grow q m).2.1 ∧
       (expandCapacity grow q m).2.1.size = q.size ∧ q.capacity < (expandCapacity grow q m).2.1.capacity ∧
       (∀ j, j < q.size → (expandCapacity grow q m).2.1.buf.get j = q.buf.get j) ∧
-      (expandCapacity grow q m).2.2.live = m.live ∧ (expandCapacity grow q m).2.2.fault = m.fault ∧
-      m.alloc.1 = true) ∨
-    (((expandCapacity grow q m).1 = .errAlloc ∧ m.alloc.1 = false) ∨ (expandCapacity grow q m).1 = .errMaxCapacity) ∧
-      (expandCapacity grow q m).2.1 = q ∧ (expandCapacity grow q m).2.2.live = m.live ∧
+      (expandCapacity grow q m).2.2.liveT q.triple = m.liveT q.triple ∧ (expandCapacity grow q m).2.2.fault = m.fault ∧
+      (m.allocT q.triple).1 = true) ∨
+    (((expandCapacity grow q m).1 = .errAlloc ∧ (m.allocT q.triple).1 = false) ∨ (expandCapacity grow q m).1 = .errMaxCapacity) ∧
+      (expandCapacity grow q m).2.1 = q ∧ (expandCapacity grow q m).2.2.liveT q.triple = m.liveT q.triple ∧
       (expandCapacity grow q m).2.2.fault = m.fault := by
   obtain ⟨⟨h1, h2, h3, h4⟩, h5⟩ := h
   unfold expandCapacity; dsimp only
   by_cases hmax : q.capacity = Gen.CC_MAX_ELEMENTS
   · right; simp [hmax]
   · simp only [hmax, if_false]
-    have hnc := newCapacity_gt grow q hg h5 hmax
+    have hnc1 := newCapacity_gt grow q h5
     by_cases hbytes : newCapacity grow q > Gen.CC_MAX_ELEMENTS / ptrSize
     · right; simp [hbytes]
+    have hnc : q.capacity < newCapacity grow q ∧ newCapacity grow q ≤ Gen.CC_MAX_ELEMENTS / ptrSize := ⟨hnc1, by omega⟩
     simp only [hbytes, if_false]
-    cases ha : m.alloc.1
+    cases ha : (m.allocT q.triple).1
     · right
-      have := Mem.alloc_fst_false m ha
-      simp [this]
+      have := Mem.allocT_false m q.triple ha
+      simp only [Bool.not_false, if_true]
+      exact ⟨Or.inl ⟨by first | rfl | trivial, by first | rfl | trivial⟩, by first | rfl | trivial, this.1, this.2.1⟩
     · left
-      have ea := Mem.alloc_fst_true m ha
+      have ea := Mem.allocT_true m q.triple ha
       have hck : (decide (q.size ≤ q.buf.length) && decide (q.size ≤ newCapacity grow q)) = true := by
         have a1 : q.size ≤ q.buf.length := by omega
         have a2 : q.size ≤ newCapacity grow q := by omega
@@ -411,20 +411,20 @@ theorem expand_spec (cmp : Nat → Nat → Int) (grow : Nat → Nat) (q : PQueue
         intro j hj
         rw [Buf.get_memcpy _ _ _ _ _ _ (by simp; omega)]
         simp [hj]
-      have hfree := free_live' m.alloc.2 (by rw [ea.1]; omega)
+      have hfree := Mem.freeT_pos (m.allocT q.triple).2 q.triple (by rw [ea.1]; omega)
       refine ⟨trivial, ⟨⟨by dsimp only; omega, by simp, by dsimp only; omega, ?_⟩, hnc.2⟩, trivial, hnc.1, hget, ?_, ?_, trivial⟩
       · exact heapOrd_congr cmp q.buf _ q.size (fun j hj => (hget j hj).symm) h4
       · rw [hfree.1, ea.1]; omega
-      · rw [hfree.2, ea.2.1]
+      · rw [hfree.2.1, ea.2.1]
 
 
-theorem expand_spec_get (cmp : Nat → Nat → Int) (grow : Nat → Nat) (q : PQueue) (m : Mem) (hg : GrowOk grow)
-    (h : Inv' cmp q) (hl : 0 < m.live) (hok : (expandCapacity grow q m).1 = .ok) :
+theorem expand_spec_get (cmp : Nat → Nat → Int) (grow : Nat → Nat) (q : PQueue) (m : Mem)
+    (h : Inv' cmp q) (hl : 0 < m.liveT q.triple) (hok : (expandCapacity grow q m).1 = .ok) :
     Inv' cmp (expandCapacity grow q m).2.1 ∧
       (expandCapacity grow q m).2.1.size = q.size ∧ q.capacity < (expandCapacity grow q m).2.1.capacity ∧ True ∧
       (∀ j, j < q.size → (expandCapacity grow q m).2.1.buf.get j = q.buf.get j) ∧
-      (expandCapacity grow q m).2.2.live = m.live ∧ (expandCapacity grow q m).2.2.fault = m.fault := by
-  rcases expand_spec cmp grow q m hg h hl with ⟨_, e2, e3, e4, e5, e6, e7, _⟩ | ⟨e1, _⟩
+      (expandCapacity grow q m).2.2.liveT q.triple = m.liveT q.triple ∧ (expandCapacity grow q m).2.2.fault = m.fault := by
+  rcases expand_spec cmp grow q m h hl with ⟨_, e2, e3, e4, e5, e6, e7, _⟩ | ⟨e1, _⟩
   · exact ⟨e2, e3, e4, trivial, e5, e6, e7⟩
   · rcases e1 with ⟨e1, _⟩ | e1 <;> rw [e1] at hok <;> cases hok
 
@@ -444,7 +444,7 @@ theorem expand_ok_bytes (grow : Nat → Nat) (q : PQueue) (m : Mem) (h : (expand
   · simp [h1] at h
   · by_cases h2 : newCapacity grow q > Gen.CC_MAX_ELEMENTS / ptrSize
     · simp [h1, h2] at h
-    · cases ha : m.alloc.1
+    · cases ha : (m.allocT q.triple).1
       · simp [h1, h2, ha] at h
       · simp only [h1, h2, ha, if_false, Bool.not_true, Bool.false_eq_true]
         simp only [Gen.CC_MAX_ELEMENTS, ptrSize] at h2 ⊢
@@ -508,16 +508,16 @@ theorem storeSift_spec {cmp : Nat → Nat → Int} (tp : TotalPreorder cmp) (q :
 
 /-- `cc_pqueue_push`: OK, heap order restored, the element joined the multiset; or a refused/
 impossible growth with the whole queue unchanged.  The ledger is balanced either way. -/
-theorem push_spec {cmp : Nat → Nat → Int} (tp : TotalPreorder cmp) (grow : Nat → Nat) (hg : GrowOk grow)
-    (q : PQueue) (x : Nat) (m : Mem) (h : Inv' cmp q) (hl : 0 < m.live) :
+theorem push_spec {cmp : Nat → Nat → Int} (tp : TotalPreorder cmp) (grow : Nat → Nat)
+    (q : PQueue) (x : Nat) (m : Mem) (h : Inv' cmp q) (hl : 0 < m.liveT q.triple) :
     ((push cmp grow q x m).1 = .ok ∧ Inv' cmp (push cmp grow q x m).2.1 ∧
       ((push cmp grow q x m).2.1.abs).Perm (x :: q.abs) ∧ (push cmp grow q x m).2.1.size = q.size + 1) ∨
-    ((((push cmp grow q x m).1 = .errAlloc ∧ m.alloc.1 = false) ∨ (push cmp grow q x m).1 = .errMaxCapacity) ∧
+    ((((push cmp grow q x m).1 = .errAlloc ∧ (m.allocT q.triple).1 = false) ∨ (push cmp grow q x m).1 = .errMaxCapacity) ∧
       (push cmp grow q x m).2.1 = q) := by
   rw [push_eq]
   by_cases hfull : q.size ≥ q.capacity
   · simp only [hfull, if_true]
-    rcases expand_spec cmp grow q m hg h hl with ⟨e1, e2, e3, e4, _, _, _, _⟩ | ⟨e1, e2, _, _⟩
+    rcases expand_spec cmp grow q m h hl with ⟨e1, e2, e3, e4, _, _, _, _⟩ | ⟨e1, e2, _, _⟩
     · have : ((expandCapacity grow q m).1 != .ok) = false := by rw [e1]; rfl
       simp only [this, Bool.false_eq_true, if_false]
       have hroom : (expandCapacity grow q m).2.1.size < (expandCapacity grow q m).2.1.capacity := by
@@ -527,7 +527,7 @@ theorem push_spec {cmp : Nat → Nat → Int} (tp : TotalPreorder cmp) (grow : N
       refine ⟨hs.1, hs.2.1, ?_, by rw [hs.2.2.2.1, e3]⟩
       have : (expandCapacity grow q m).2.1.abs = q.abs := by
         unfold abs; rw [e3]
-        exact firstN_congr _ _ _ (by obtain ⟨_, _, _, _, e5, _⟩ := expand_spec_get cmp grow q m hg h hl e1; exact e5)
+        exact firstN_congr _ _ _ (by obtain ⟨_, _, _, _, e5, _⟩ := expand_spec_get cmp grow q m h hl e1; exact e5)
       rw [← this]; exact hs.2.2.1
     · have : ((expandCapacity grow q m).1 != .ok) = true := by
         rcases e1 with ⟨e1, _⟩ | e1 <;> rw [e1] <;> rfl
@@ -540,13 +540,13 @@ theorem push_spec {cmp : Nat → Nat → Int} (tp : TotalPreorder cmp) (grow : N
 
 /-- `cc_pqueue_push` keeps the ledger balanced (growth allocates one block and frees one) and never
 touches a slot outside the buffer -/
-theorem push_mem {cmp : Nat → Nat → Int} (tp : TotalPreorder cmp) (grow : Nat → Nat) (hg : GrowOk grow)
-    (q : PQueue) (x : Nat) (m : Mem) (h : Inv' cmp q) (hl : 0 < m.live) :
-    (push cmp grow q x m).2.2.live = m.live ∧ (push cmp grow q x m).2.2.fault = m.fault := by
+theorem push_mem {cmp : Nat → Nat → Int} (tp : TotalPreorder cmp) (grow : Nat → Nat)
+    (q : PQueue) (x : Nat) (m : Mem) (h : Inv' cmp q) (hl : 0 < m.liveT q.triple) :
+    (push cmp grow q x m).2.2.liveT q.triple = m.liveT q.triple ∧ (push cmp grow q x m).2.2.fault = m.fault := by
   rw [push_eq]
   by_cases hfull : q.size ≥ q.capacity
   · simp only [hfull, if_true]
-    rcases expand_spec cmp grow q m hg h hl with ⟨e1, e2, e3, e4, _, e6, e7, _⟩ | ⟨e1, _, e3, e4⟩
+    rcases expand_spec cmp grow q m h hl with ⟨e1, e2, e3, e4, _, e6, e7, _⟩ | ⟨e1, _, e3, e4⟩
     · have : ((expandCapacity grow q m).1 != .ok) = false := by rw [e1]; rfl
       simp only [this, Bool.false_eq_true, if_false]
       have hroom : (expandCapacity grow q m).2.1.size < (expandCapacity grow q m).2.1.capacity := by
@@ -584,7 +584,7 @@ theorem pop_spec {cmp : Nat → Nat → Int} (tp : TotalPreorder cmp) (q : PQueu
         q.abs.Perm (x :: (pop cmp q m).2.2.1.abs) ∧ Inv' cmp (pop cmp q m).2.2.1 ∧
         (pop cmp q m).2.2.1.size + 1 = q.size ∧ (pop cmp q m).2.2.2 = m)) := by
   obtain ⟨⟨h1, h2, h3, h4⟩, h5⟩ := h
-  unfold pop
+  unfold pop popOut
   by_cases h0 : q.size = 0
   · left; simp [h0, abs, Buf.firstN]
   · right
@@ -626,7 +626,7 @@ theorem pop_spec {cmp : Nat → Nat → Int} (tp : TotalPreorder cmp) (q : PQueu
         have := heapify_spec tp (q.size - 1) (q.size - 1 - 0) 0 (swap q.buf 0 (q.size - 1)) m rfl (by omega)
           (by simp; omega) hdown
         exact ⟨this.1, by rw [this.2.1]; simp, this.2.2.1, this.2.2.2⟩
-    refine ⟨q.buf.get 0, trivial, by rw [hout], ⟨?_, ?_⟩, ?_, ⟨⟨by show q.size - 1 ≤ q.capacity; omega, ?_, h3, hheap.1⟩, h5⟩,
+    refine ⟨q.buf.get 0, trivial, by rw [hout]; simp, ⟨?_, ?_⟩, ?_, ⟨⟨by show q.size - 1 ≤ q.capacity; omega, ?_, h3, hheap.1⟩, h5⟩,
       by show q.size - 1 + 1 = q.size; omega, hheap.2.2.2⟩
     · exact (mem_firstN _ _ _).2 ⟨0, by omega, rfl⟩
     · intro y hy
@@ -635,13 +635,14 @@ theorem pop_spec {cmp : Nat → Nat → Int} (tp : TotalPreorder cmp) (q : PQueu
     · exact hperm1.trans (List.Perm.cons _ hheap.2.2.1.symm)
     · dsimp only; rw [hheap.2.1]; exact h2
 
-/-- `cc_pqueue_new_conf`: `hex` says that the (effective, > 1) expansion factor is not below 0 -/
-theorem new_spec (cmp : Nat → Nat → Int) (cap : Nat) (exGe : Nat → Bool) (m : Mem) (hex : exGe 0 = true) :
-    ((new cap exGe m).1 = .errInvalidCapacity ∧ (new cap exGe m).2.1 = none ∧ (new cap exGe m).2.2 = m) ∨
-    ((new cap exGe m).1 = .errAlloc ∧ (new cap exGe m).2.1 = none ∧ (new cap exGe m).2.2.live = m.live ∧
-      (new cap exGe m).2.2.fault = m.fault ∧ 0 < cap) ∨
-    (∃ q, (new cap exGe m).1 = .ok ∧ (new cap exGe m).2.1 = some q ∧ Inv' cmp q ∧ q.abs = [] ∧ q.capacity = cap ∧
-      (new cap exGe m).2.2.live = m.live + 2 ∧ (new cap exGe m).2.2.fault = m.fault) := by
+/-- `cc_pqueue_new_conf` on triple `t` (`.conf`: the caller's allocators, `.libc`: `cc_pqueue_new`) -/
+theorem new_spec (cmp : Nat → Nat → Int) (cap : Nat) (exGe : Nat → Bool) (t : Triple) (m : Mem) :
+    ((new cap exGe t m).1 = .errInvalidCapacity ∧ (new cap exGe t m).2.1 = none ∧ (new cap exGe t m).2.2 = m) ∨
+    ((new cap exGe t m).1 = .errAlloc ∧ (new cap exGe t m).2.1 = none ∧ (new cap exGe t m).2.2.liveT t = m.liveT t ∧
+      (new cap exGe t m).2.2.fault = m.fault ∧ (new cap exGe t m).2.2.liveO t = m.liveO t ∧ 0 < cap ∧ t = .conf) ∨
+    (∃ q, (new cap exGe t m).1 = .ok ∧ (new cap exGe t m).2.1 = some q ∧ Inv' cmp q ∧ q.abs = [] ∧ q.capacity = cap ∧
+      q.triple = t ∧ (new cap exGe t m).2.2.liveT t = m.liveT t + 2 ∧ (new cap exGe t m).2.2.fault = m.fault ∧
+      (new cap exGe t m).2.2.liveO t = m.liveO t) := by
   unfold new
   by_cases hbad : (cap = 0 || exGe (Gen.CC_MAX_ELEMENTS / cap)) = true
   · left; simp [hbad]
@@ -650,31 +651,34 @@ theorem new_spec (cmp : Nat → Nat → Int) (cap : Nat) (exGe : Nat → Bool) (
     right
     simp only [hbad, hbytes, if_false]
     simp only [Bool.or_eq_true, decide_eq_true_eq, not_or, Bool.not_eq_true] at hbad
-    have hcap : cap ≤ Gen.CC_MAX_ELEMENTS := by
-      apply Decidable.byContradiction
-      intro hgt
-      have : Gen.CC_MAX_ELEMENTS / cap = 0 := Nat.div_eq_of_lt (by omega)
-      rw [this, hex] at hbad
-      exact absurd hbad.2 (by simp)
-    cases h1 : m.alloc.1
+    have hcap : cap ≤ Gen.CC_MAX_ELEMENTS / ptrSize := by omega
+    have hpos : 0 < cap := by omega
+    cases h1 : (m.allocT t).1
     · left
-      have := Mem.alloc_fst_false m h1
-      simp [this]; omega
-    · have e1 := Mem.alloc_fst_true m h1
-      cases h2 : m.alloc.2.alloc.1
+      have := Mem.allocT_false m t h1
+      simp only [Bool.not_false, if_true]
+      exact ⟨(by first | rfl | trivial | simp), (by first | rfl | trivial | simp), this.1, this.2.1, this.2.2.1, hpos, this.2.2.2.1⟩
+    · have e1 := Mem.allocT_true m t h1
+      simp only [Bool.not_true, Bool.false_eq_true, if_false]
+      cases h2 : ((m.allocT t).2.allocT t).1
       · left
-        have e2 := Mem.alloc_fst_false m.alloc.2 h2
-        simp [Mem.free, e1, e2]; omega
+        have e2 := Mem.allocT_false (m.allocT t).2 t h2
+        have e3 := Mem.freeT_pos ((m.allocT t).2.allocT t).2 t (by rw [e2.1, e1.1]; omega)
+        simp only [Bool.not_false, if_true]
+        exact ⟨(by first | rfl | trivial | simp), (by first | rfl | trivial | simp), by rw [e3.1, e2.1, e1.1]; omega, by rw [e3.2.1, e2.2.1, e1.2.1],
+          by rw [e3.2.2.1, e2.2.2.1, e1.2.2], hpos, e2.2.2.2.1⟩
       · right
-        have e2 := Mem.alloc_fst_true m.alloc.2 h2
-        refine ⟨{ size := 0, capacity := cap, buf := Buf.mk cap }, by simp, by simp,
-          ⟨⟨Nat.zero_le _, by simp, by show 0 < cap; omega, ?_⟩, hcap⟩, by simp [abs, Buf.firstN], rfl, ?_, ?_⟩
+        have e2 := Mem.allocT_true (m.allocT t).2 t h2
+        simp only [Bool.not_true, Bool.false_eq_true, if_false]
+        refine ⟨{ triple := t, size := 0, capacity := cap, buf := Buf.mk cap }, (by first | rfl | trivial | simp), (by first | rfl | trivial | simp),
+          ⟨⟨Nat.zero_le _, by simp, by show 0 < cap; omega, ?_⟩, hcap⟩, by simp [abs, Buf.firstN], rfl, rfl, ?_, ?_, ?_⟩
         · intro j hj; exact absurd hj (Nat.not_lt_zero _)
-        · simp [e2.1, e1.1]
-        · simp [e2.2.1, e1.2.1]
+        · rw [e2.1, e1.1]
+        · rw [e2.2.1, e1.2.1]
+        · rw [e2.2.2, e1.2.2]
 
 /-- an accepted capacity has a representable byte size: `capacity * sizeof(void*)` does not wrap -/
-theorem new_ok_bytes (cap : Nat) (exGe : Nat → Bool) (m : Mem) (h : (new cap exGe m).1 = .ok) :
+theorem new_ok_bytes (cap : Nat) (exGe : Nat → Bool) (t : Triple) (m : Mem) (h : (new cap exGe t m).1 = .ok) :
     0 < cap ∧ cap * ptrSize < 2 ^ 64 := by
   unfold new at h
   by_cases hbad : (cap = 0 || exGe (Gen.CC_MAX_ELEMENTS / cap)) = true
@@ -684,6 +688,105 @@ theorem new_ok_bytes (cap : Nat) (exGe : Nat → Bool) (m : Mem) (h : (new cap e
     · simp only [Bool.or_eq_true, decide_eq_true_eq, not_or] at hbad
       simp only [Gen.CC_MAX_ELEMENTS, ptrSize] at hbytes ⊢
       omega
+
+/-! ### the triple never changes -/
+theorem expand_triple (grow : Nat → Nat) (q : PQueue) (m : Mem) : (expandCapacity grow q m).2.1.triple = q.triple := by
+  unfold expandCapacity; dsimp only
+  split
+  · rfl
+  · split
+    · rfl
+    · split <;> rfl
+
+theorem storeSift_triple (cmp : Nat → Nat → Int) (q : PQueue) (x : Nat) (m : Mem) :
+    (storeSift cmp q x m).2.1.triple = q.triple := by
+  unfold storeSift; dsimp only; split <;> rfl
+
+theorem push_triple (cmp : Nat → Nat → Int) (grow : Nat → Nat) (q : PQueue) (x : Nat) (m : Mem) :
+    (push cmp grow q x m).2.1.triple = q.triple := by
+  rw [push_eq]
+  split
+  · split
+    · exact expand_triple grow q m
+    · rw [storeSift_triple]; exact expand_triple grow q m
+  · exact storeSift_triple cmp q x m
+
+theorem popOut_triple (cmp : Nat → Nat → Int) (q : PQueue) (w : Bool) (m : Mem) :
+    (popOut cmp q w m).2.2.1.triple = q.triple := by
+  unfold popOut; split <;> rfl
+
+open Spec.PQ (Op) in
+theorem step_triple (cmp : Nat → Nat → Int) (grow : Nat → Nat) (q : PQueue) (op : Op) (m : Mem) :
+    (step cmp grow q op m).2.1.triple = q.triple := by
+  cases op with
+  | push x => exact push_triple cmp grow q x m
+  | top => rfl
+  | pop => exact popOut_triple cmp q true m
+
+/-- `cc_pqueue_pop(pq, NULL)` is the same function as `cc_pqueue_pop(pq, &out)` except that the
+element is not reported: same status, same resulting queue, same ledger -/
+theorem popOut_false (cmp : Nat → Nat → Int) (q : PQueue) (m : Mem) :
+    (popOut cmp q false m).1 = (pop cmp q m).1 ∧ (popOut cmp q false m).2.1 = none ∧
+    (popOut cmp q false m).2.2 = (pop cmp q m).2.2 := by
+  unfold pop popOut; split <;> exact ⟨rfl, rfl, rfl⟩
+
+/-- **when push succeeds**: exactly when there is room, or the queue can still grow (capacity below
+the limits) and the allocator grants the new buffer; `CC_ERR_MAX_CAPACITY` exactly in the
+complementary limit case; `CC_ERR_ALLOC` exactly when the allocator refuses -/
+theorem push_status_iff {cmp : Nat → Nat → Int} (tp : TotalPreorder cmp) (grow : Nat → Nat)
+    (q : PQueue) (x : Nat) (m : Mem) (h : Inv' cmp q) (hl : 0 < m.liveT q.triple) :
+    ((push cmp grow q x m).1 = .ok ↔
+      (q.size < q.capacity ∨ (newCapacity grow q ≤ Gen.CC_MAX_ELEMENTS / ptrSize ∧ (m.allocT q.triple).1 = true))) ∧
+    ((push cmp grow q x m).1 = .errMaxCapacity ↔
+      (q.size = q.capacity ∧ newCapacity grow q > Gen.CC_MAX_ELEMENTS / ptrSize)) ∧
+    ((push cmp grow q x m).1 = .errAlloc ↔
+      (q.size = q.capacity ∧ newCapacity grow q ≤ Gen.CC_MAX_ELEMENTS / ptrSize ∧ (m.allocT q.triple).1 = false)) := by
+  have hsc := h.1.1
+  have hcap := h.2
+  have hne : q.capacity ≠ Gen.CC_MAX_ELEMENTS := by
+    simp only [Gen.CC_MAX_ELEMENTS, ptrSize] at *; omega
+  rw [push_eq]
+  by_cases hfull : q.size ≥ q.capacity
+  · have hroom : ¬ q.size < q.capacity := by omega
+    have heq : q.size = q.capacity := by omega
+    simp only [hfull, if_true]
+    -- status of expand_capacity
+    have hex : (expandCapacity grow q m).1 =
+        if newCapacity grow q > Gen.CC_MAX_ELEMENTS / ptrSize then .errMaxCapacity
+        else if (m.allocT q.triple).1 then .ok else .errAlloc := by
+      unfold expandCapacity; dsimp only
+      simp only [hne, if_false]
+      split
+      · rfl
+      · cases (m.allocT q.triple).1 <;> rfl
+    by_cases hb : newCapacity grow q > Gen.CC_MAX_ELEMENTS / ptrSize
+    · rw [if_pos hb] at hex
+      have : ((expandCapacity grow q m).1 != .ok) = true := by rw [hex]; rfl
+      simp only [this, if_true]
+      have hb' : ¬ newCapacity grow q ≤ Gen.CC_MAX_ELEMENTS / ptrSize := by omega
+      simp [hroom, hb, hb', heq, hex]
+    · rw [if_neg hb] at hex
+      have hb' : newCapacity grow q ≤ Gen.CC_MAX_ELEMENTS / ptrSize := by omega
+      cases ha : (m.allocT q.triple).1
+      · rw [ha] at hex
+        simp only [Bool.false_eq_true, if_false] at hex
+        have : ((expandCapacity grow q m).1 != .ok) = true := by rw [hex]; rfl
+        simp only [this, if_true]
+        simp [hroom, hb, hb', heq, hex]
+      · rw [ha] at hex
+        simp only [if_true] at hex
+        have : ((expandCapacity grow q m).1 != .ok) = false := by rw [hex]; rfl
+        simp only [this, Bool.false_eq_true, if_false]
+        rcases expand_spec cmp grow q m h hl with ⟨_, e2, e3, e4, _⟩ | ⟨e1, _⟩
+        · have hr : (expandCapacity grow q m).2.1.size < (expandCapacity grow q m).2.1.capacity := by omega
+          rw [(storeSift_spec tp _ x (expandCapacity grow q m).2.2 e2 hr).1]
+          simp [hb, hb']
+        · rcases e1 with ⟨e1, _⟩ | e1 <;> rw [hex] at e1 <;> cases e1
+  · simp only [hfull, if_false]
+    rw [(storeSift_spec tp q x m h (by omega)).1]
+    have : q.size < q.capacity := by omega
+    have hne' : ¬ q.size = q.capacity := by omega
+    simp [this, hne']
 
 /-- popping until empty yields every held element exactly once, in non-increasing priority order -/
 theorem drain_spec {cmp : Nat → Nat → Int} (tp : TotalPreorder cmp) :
